@@ -80,3 +80,20 @@ Theorem C02_bmc_modes_agree :
       bmc_model Fixed solver_sat sy nm true k_max = bmc_model Fixed solver_sat sy nm false k_max.
 Proof. exact bmc_modes_agree_final. Qed.
 Print Assumptions C02_bmc_modes_agree.
+
+(** ... and it never misses a counterexample: if some constrained execution from an
+    initial valuation reaches a bad state within the bound, the loop (either
+    mode) does not answer [BmcSuccess] - it answers [BmcFail] at some depth, or
+    panics in [get_signal_at].  This is the "no wrong SAFE verdict" half of
+    exactness; the converse half (every [BmcFail] is a real counterexample) is
+    covered per run by C03's witness check, not by a theorem. *)
+Theorem C02_bmc_no_missed_counterexample :
+  forall (solver_sat : list cmd -> list expr -> list expr -> bool),
+    (forall sc asserts assumps,
+        solver_sat sc asserts assumps = true <-> exists sigma0, is_model sc asserts assumps sigma0) ->
+    forall (sy : sys) (nm : expr -> string) (k_max j : nat) (individually : bool),
+      sys_wf sy = true -> names_ok (enc_new sy nm) = true -> init_reads_ok (enc_new sy nm) ->
+      (j <= k_max)%nat -> reach_at sy j ->
+      bmc_model Fixed solver_sat sy nm individually k_max <> BmcSuccess.
+Proof. exact bmc_no_miss_final. Qed.
+Print Assumptions C02_bmc_no_missed_counterexample.
